@@ -77,7 +77,7 @@ def scan_harness_text(text, modname, crate, src_rel, origin):
             if m:
                 name = m.group(1) or m.group(2)
                 if m.group(2):
-                    attrs = attrs + ["#[kani::unwind(%s)]" % pending.get("unwind", "12")]
+                    attrs = attrs + ["#[kani::unwind(%s)]" % pending.get("unwind", "20" if "c05_file" in (m.group(2) or "") else "12")]
                 unwind = None
                 stubs = []
                 for a in attrs:
@@ -113,6 +113,7 @@ def scan_harness_text(text, modname, crate, src_rel, origin):
                     nocover=pending.get("nocover", "") == "1",
                     cost=int(pending.get("cost", pending.get("timeout", "300"))),
                     concrete=pending.get("concrete", "") == "1",
+                    anysizes=[int(x) for x in pending.get("anysizes", "").split(",") if x.strip().isdigit() and int(x) > 0],
                 ))
                 pending = None
                 attrs = []
@@ -417,6 +418,13 @@ def main():
         if not unknown:
             r.status = "ok-known"
             continue
+        if violations and os.environ.get("VERIF_REPLAY_ALL", "0") != "1":
+            # one natively reproduced violation already decides the exit code; replaying every further
+            # failing harness (a playback run + a native build each) only costs time
+            r.status = "violation-not-replayed"
+            r.reason = "further failing harness, not replayed (a reproduced violation was already found): %s" % "; ".join(sorted(set(c.desc for c in unknown)))[:200]
+            print("[%s] %s: %s" % (prop, job.name, r.reason))
+            continue
         # replay: rerun with concrete playback, then run natively
         if job.concrete:
             # harness without symbolic inputs: the native replay is the harness itself
@@ -434,6 +442,16 @@ def main():
                                       int(os.environ.get("VERIF_PLAYBACK_MEM_MB", "24000")), playback=True)
             pb = pbout[job.full]
             tests = [t for t in extract_playback_tests(getattr(pb, "raw", "")) if t["cls"] != "cover"]
+            if not tests and (job.anysizes or "anysizes" in getattr(job, "__dict__", {})):
+                # Kani could not produce the trace (typically its 24 GB memory cap): fall back to a native
+                # run of the harness with every symbolic input zero -- if the same harness panics natively
+                # that is a genuine witness, whatever values the solver had picked
+                tname = "kani_concrete_playback_%s_zeros" % job.name
+                vals = ", ".join("vec![%s]" % ", ".join(["0"] * n) for n in job.anysizes)
+                body = ("/// Test generated for harness `%s` (zero-valued inputs; Kani's own trace was not available)\n///\n"
+                        "/// Check for `assertion`: \"%s\"\n\n#[test]\nfn %s() {\n    let concrete_vals: Vec<Vec<u8>> = vec![%s];\n"
+                        "    kani::concrete_playback_run(concrete_vals, %s);\n}" % (job.full, unknown[0].desc.replace('"', "'"), tname, vals, job.name))
+                tests = [dict(harness=job.full, cls="assertion", desc=unknown[0].desc, name=tname, body=body)]
         unknown_descs = set(c.desc for c in unknown)
         cand = [t for t in tests if t["desc"] in unknown_descs] or tests
         reproduced = None
